@@ -133,7 +133,7 @@ def good_files(reg, rng, quick):
     return files
 
 
-BAD_KINDS = ["below", "above", "wrongtype", "unknownref", "incompatible", "unknownopt", "syntax", "refbelow", "refabove"]
+BAD_KINDS = ["below", "above", "wrongtype", "unknownref", "incompatible", "unknownopt", "syntax", "refbelow", "refabove", "huge"]
 
 
 def bad_files(reg, rng, tokens):
@@ -161,6 +161,11 @@ def bad_files(reg, rng, tokens):
             if kind in ("below", "above"):
                 if o["bounded"]:
                     bad = "%s = %d" % (o["name"], num_value(o, kind))
+            elif kind == "huge":
+                # a literal that does not fit 32 bits and whose low 32 bits DO lie inside the range (2^32 + k, -(2^32) + k)
+                if o["bounded"] and o["kind"] in ("num", "unum"):
+                    k_ = max(o["min"], min(o["max"], 3))
+                    bad = "%s = %d" % (o["name"], (4294967296 + k_) if (i % 2 == 0 or o["kind"] == "unum" or o["min"] >= 0) else (-4294967296 + min(o["max"], -1) if o["min"] < 0 else 4294967296 + k_))
             elif kind == "wrongtype":
                 if o["kind"] in op.ENUM_VALUES:
                     bad = "%s = %s" % (o["name"], ["bogus", "7", "maybe", "forc", "tru e"][i % 5].split()[0] + ("x" if i % 5 == 4 else ""))
